@@ -355,7 +355,7 @@ func (f *Frame) addComp(ms *modSet, name string, s Sort) {
 
 func (f *Frame) addStoreMods(addr ssa.Value, ms *modSet) {
 	root, path, indexed, first := rootOf(addr)
-	if a, ok := root.(*ssa.Alloc); ok && !a.Heap {
+	if a, ok := root.(*ssa.Alloc); ok && (!a.Heap || f.ctx.eng.privateCell(a)) {
 		if indexed {
 			// store into a local array cell below path: havoc whole prefix
 		}
@@ -436,6 +436,9 @@ func (f *Frame) instrMods(in ssa.Instruction, ms *modSet) {
 		} else {
 			ms.locals[x] = append(ms.locals[x], nil)
 		}
+		if x.Heap && f.ctx.eng.privateCell(x) {
+			ms.locals[x] = append(ms.locals[x], nil)
+		}
 	case *ssa.MakeSlice:
 		es := f.sortOf(f.subst(x.Type()).Underlying().(*types.Slice).Elem())
 		f.addComp(ms, f.eName(f.subst(x.Type()).Underlying().(*types.Slice).Elem()), ArrS(SInt, ArrS(SInt, es)))
@@ -488,6 +491,12 @@ func (f *Frame) callMods(cc *ssa.CallCommon, ms *modSet) {
 			if _, isParam := cc.Value.(*ssa.Parameter); isParam && f.contract != nil && f.contract.PureCallbacks {
 				return
 			}
+			if ftKey, nt := functypeKey(f.subst(cc.Value.Type())); nt != nil {
+				if ct := f.ctx.eng.contracts.Funcs[ftKey]; ct != nil && ct.ModifiesSet {
+					f.functypeMods(ct, nt, ms)
+					return
+				}
+			}
 			ms.top = true
 			return
 		}
@@ -502,6 +511,8 @@ func (f *Frame) callMods(cc *ssa.CallCommon, ms *modSet) {
 			return
 		}
 	}
+	// private cells captured by the closure being called and written by it
+	f.closureCellMods(cc, callee, ms)
 	if f.top().trackOwn {
 		if ms.viaFresh == nil {
 			ms.viaFresh = map[string]Sort{}
